@@ -118,8 +118,15 @@ func ipTok(s string) string {
 	return "-"
 }
 
-// guard runs f against the real code with panic recovery and a timeout.
-func guard(f func()) string { return hx.Guard(opTimeout, f) }
+// guard runs f against the real code with panic recovery and a timeout.  The simulated process death is reported as
+// "crashed" (the caller still fills in the choices it could observe, then reports the crash).
+func guard(f func()) string {
+	o := hx.Guard(opTimeout, f)
+	if strings.Contains(o, CrashPanic) {
+		return "crashed"
+	}
+	return o
+}
 
 // Apply executes one op line against the real plugin.  Choice fields written `?` (or anything, for filter / bind /
 // resync) are replaced by what the implementation was observed to choose; the returned line is the one to hand to the
@@ -306,7 +313,7 @@ func (w *World) Apply(line string) (final string, result string) {
 		if !perm {
 			return line, "inadmissible-choice"
 		}
-		if o != "ok" {
+		if o != "ok" && o != "crashed" {
 			return line, o
 		}
 		var toks []string
@@ -315,6 +322,9 @@ func (w *World) Apply(line string) (final string, result string) {
 		}
 		f[1] = dashIfEmpty(strings.Join(toks, ","))
 		final = strings.Join(f, " ")
+		if o == "crashed" {
+			return final, "crashed"
+		}
 		w.drain()
 		if !perm {
 			return final, "inadmissible-choice"
@@ -432,6 +442,42 @@ func (w *World) Apply(line string) (final string, result string) {
 	return line, "bad-op"
 }
 
+// ApplyCrash executes one op line while the process dies before external call number at+1 of it (apiserver calls and
+// provider requests counted together).  If the op makes fewer calls it completes normally (crashed = false).  After
+// a crash the plugin instance, the listers' lag, the queued events and a resync snapshot are gone; a new process is
+// started on the same apiserver / store (Init, informers in sync).  The returned line is the one for the model:
+// `crash <k> <j> <op line>` with k / j = completed apiserver calls / provider requests.
+func (w *World) ApplyCrash(line string, at int) (final string, result string, crashed bool) {
+	w.Bomb.Arm(at)
+	pn := w.Prov.N
+	fl, res := w.Apply(line)
+	w.Bomb.Disarm()
+	if res != "crashed" {
+		return fl, res, false
+	}
+	k := len(w.Cnt.Calls())
+	w.Prov.mu.Lock()
+	j := w.Prov.N
+	w.Prov.mu.Unlock()
+	_ = pn
+	if f := strings.Fields(fl); len(f) == 3 && f[0] == "reload" {
+		// the new process reads the configuration the crashed reload was applying
+		if pools, err := ParsePoolsLine(f[1]); err == nil && len(pools) > 0 {
+			w.Pools = pools
+		}
+	}
+	w.Events = nil
+	w.Snap = map[uint32]schedulerplugin.VerifResyncEntry{}
+	w.syncListers(true, true)
+	if o := guard(func() { w.startPlugin() }); o != "ok" {
+		return fl, o, true
+	}
+	w.voidDropped()
+	final = fmt.Sprintf("crash %d %d %s", k, j, fl)
+	w.LastOp = OpInfo{Kind: "crash", Line: final, Result: "ok", PlogBefore: w.LastOp.PlogBefore}
+	return final, "ok", true
+}
+
 // voidDropped marks (pod uid, ip) pairs whose address is no longer configured: C04 speaks about reloads "that still
 // contain the IP".
 func (w *World) voidDropped() {
@@ -462,7 +508,10 @@ func (w *World) applyFilter(f []string) (string, string) {
 	w.Prov.Reset(0)
 	var passed []corev1.Node
 	var err error
-	if o := guard(func() { passed, _, err = w.Plugin.Filter(pod, nodes) }); o != "ok" {
+	crashed := false
+	if o := guard(func() { passed, _, err = w.Plugin.Filter(pod, nodes) }); o == "crashed" {
+		crashed = true
+	} else if o != "ok" {
 		return strings.Join(f, " "), o
 	}
 	// observed choices
@@ -500,6 +549,9 @@ func (w *World) applyFilter(f []string) (string, string) {
 		}
 	}
 	final := strings.Join(f, " ")
+	if crashed {
+		return final, "crashed"
+	}
 	if err != nil {
 		return final, errLine(err)
 	}
@@ -529,10 +581,13 @@ func (w *World) applyBind(f []string) (string, string) {
 	w.Prov.Reset(atoiDef(f[8]))
 	plogBefore := len(w.Prov.Log)
 	var err error
+	crashed := false
 	if o := guard(func() {
 		err = w.Plugin.Bind(&schedulerapi.ExtenderBindingArgs{PodName: name, PodNamespace: ns,
 			PodUID: uidStr(atoiDef(f[3])), Node: f[4]})
-	}); o != "ok" {
+	}); o == "crashed" {
+		crashed = true
+	} else if o != "ok" {
 		return strings.Join(f, " "), o
 	}
 	w.drain()
@@ -568,6 +623,9 @@ func (w *World) applyBind(f []string) (string, string) {
 		}
 	}
 	final := strings.Join(f, " ")
+	if crashed {
+		return final, "crashed"
+	}
 	if err != nil {
 		if strings.Contains(err.Error(), "failed to assign ip") {
 			return final, "err provider"
